@@ -1028,3 +1028,98 @@ func c20writtenListDecides(c *Ctx) {
 	sort.Strings(bad)
 	c.R.Check(len(bad) == 0, rule, goctlAst+".(*AST).Format#written-list", "layout by position is decided among the statements that are written: the raw statement list is only ranged over (no a.Stmts[i], no compared len(a.Stmts), no use of the raw index)", c.P.Pos(f.Pos()), strings.Join(bad, "; "), bad, ranges)
 }
+
+// c20emptyChildLines (R18, round 7): a child that formats to nothing takes no line. Several Format methods return ""
+// for a node whose values are all empty (`@doc ""`, an info block of empty strings …); after one pass such a node is
+// gone. A parent that writes the child's text and then its own line terminator without looking at the text leaves an
+// empty line that the second pass cannot reproduce. For every Format method of the ast package: when the text handed
+// to WriteText is the result of a Format that can return the empty constant, the method compares that text with ""
+// (any comparison of the very value — typically the guard around the write and its NewLine).
+func c20emptyChildLines(c *Ctx) {
+	rule := "C20.R18"
+	sp := c.P.SSAPkg(goctlAst)
+	if sp == nil {
+		c.R.Undecided(rule, goctlAst, "anchor resolves", "package not loaded")
+		return
+	}
+	isEmptyConst := func(v ssa.Value) bool {
+		k, ok := v.(*ssa.Const)
+		return ok && k.Value != nil && k.Value.Kind() == constant.String && constant.StringVal(k.Value) == ""
+	}
+	// E: Format methods with a return of the empty constant
+	canBeEmpty := map[*ssa.Function]bool{}
+	var formats []*ssa.Function
+	for _, f := range c.P.AllFuncs(goctlAst) {
+		if f.Name() != "Format" || f.Signature.Recv() == nil || f.Signature.Results().Len() != 1 {
+			continue
+		}
+		formats = append(formats, f)
+		for _, b := range f.Blocks {
+			if len(b.Instrs) == 0 {
+				continue
+			}
+			if r, ok := b.Instrs[len(b.Instrs)-1].(*ssa.Return); ok && len(r.Results) == 1 && isEmptyConst(r.Results[0]) {
+				canBeEmpty[f] = true
+			}
+		}
+	}
+	implsEmpty := func(call *ssa.Call) bool {
+		if cal := call.Call.StaticCallee(); cal != nil {
+			return canBeEmpty[cal]
+		}
+		if !call.Call.IsInvoke() || call.Call.Method.Name() != "Format" {
+			return false
+		}
+		it, ok := call.Call.Value.Type().Underlying().(*types.Interface)
+		if !ok {
+			return false
+		}
+		for f := range canBeEmpty {
+			if types.Implements(f.Signature.Recv().Type(), it) {
+				return true
+			}
+		}
+		return false
+	}
+	var bad []string
+	sites := 0
+	for _, f := range formats {
+		for _, b := range f.Blocks {
+			for _, ins := range b.Instrs {
+				wt, ok := ins.(*ssa.Call)
+				if !ok {
+					continue
+				}
+				cal := wt.Call.StaticCallee()
+				if cal == nil || cal.Name() != "WriteText" || len(wt.Call.Args) != 2 {
+					continue
+				}
+				src, ok := wt.Call.Args[1].(*ssa.Call)
+				if !ok || !implsEmpty(src) {
+					continue
+				}
+				sites++
+				compared := false
+				for _, r := range *src.Referrers() {
+					if bo, ok := r.(*ssa.BinOp); ok && (bo.Op == token.EQL || bo.Op == token.NEQ) && (isEmptyConst(bo.X) || isEmptyConst(bo.Y)) {
+						compared = true
+					}
+					if lc, ok := r.(*ssa.Call); ok {
+						if bi, ok := lc.Call.Value.(*ssa.Builtin); ok && bi.Name() == "len" {
+							compared = true
+						}
+					}
+				}
+				if !compared {
+					bad = append(bad, fmt.Sprintf("%s: %s writes the text of a child whose Format can be empty without comparing it with \"\": the line written for it is empty on the first pass and absent on the second", c.P.Pos(wt.Pos()), funcDisplay(f)))
+				}
+			}
+		}
+	}
+	sort.Strings(bad)
+	if len(canBeEmpty) < 3 {
+		c.R.Undecided(rule, goctlAst+"#can-be-empty", "the Format methods that can return the empty text are recognised", fmt.Sprintf("%d found", len(canBeEmpty)))
+		return
+	}
+	c.R.Check(len(bad) == 0, rule, goctlAst+".Format#empty-child-lines", "the text of a child whose Format can be empty is compared with \"\" by the method that writes it (a child that formats to nothing takes no line)", "-", strings.Join(bad, "; "), bad, sites+len(canBeEmpty))
+}
